@@ -8,13 +8,25 @@ Import ListNotations.
 Definition sh (x : str) : string := string_of_list_ascii x.
 Definition kk (x : string) : key := components (lit x).
 
+Inductive prd := PPos (p : Z) | PData (d : list Z) | PDigest (len : Z) (first last : Z) | PRErr | PStr (s : string).
+Definition pr_r (digest : bool) (o : @robs Z) : prd :=
+  match o with
+  | RPos p => PPos p
+  | RErr => PRErr
+  | RData d => if digest then PDigest (zlen d) (hd (-1)%Z d) (List.last d (-1)%Z) else PData d
+  end.
+Definition pr_rs (o : @robs ascii) : prd :=
+  match o with RPos p => PPos p | RErr => PRErr | RData d => PStr (sh d) end.
+
 Inductive pobs :=
-| PUnit | PBytes (s : string) | PBool (b : bool) | PList (l : list string) | PSize (n : Z) | PSizeDir | PErr (e : errk).
+| PUnit | PBytes (s : string) | PBool (b : bool) | PList (l : list string) | PSize (n : Z) | PSizeDir | PErr (e : errk)
+| POpened (os : list prd) (final : Z).
 
 Definition pr (o : obs) : pobs :=
   match o with
   | OUnit => PUnit | OBytes v => PBytes (sh v) | OBool b => PBool b | OList l => PList (map sh l)
   | OSize n => PSize n | OSizeDir => PSizeDir | OErr e => PErr e
+  | OOpened os final => POpened (map pr_rs os) final
   end.
 
 (* one backend case: the three runs and whether the case lies inside the theorems' domain *)
@@ -31,13 +43,6 @@ Definition run_local_str (ops : list (op string)) :=
   map pr (snd (run local_step_str linit (map (map_op lit) ops))).
 
 (* range reader *)
-Inductive prd := PPos (p : Z) | PData (d : list Z) | PDigest (len : Z) (first last : Z) | PRErr.
-Definition pr_r (digest : bool) (o : @robs Z) : prd :=
-  match o with
-  | RPos p => PPos p
-  | RErr => PRErr
-  | RData d => if digest then PDigest (zlen d) (hd (-1)%Z d) (List.last d (-1)%Z) else PData d
-  end.
 Definition range_case (digest : bool) (content : list Z) (prog : list rop) :=
   let '(obs, final, rs) := run_rf content 0 prog in
   let '(fobs, ffinal) := run_file content 0 prog in
@@ -64,12 +69,13 @@ Definition retry_case (script : list (Z + pexn)) :=
 
 (* request traces *)
 Require Import DS.Model.BackendTrace.
-Inductive preq := PReq (kind : string) (k : string) (maxkeys1 : bool).
+Inductive preq := PReq (kind : string) (k : string) (maxkeys1 : bool) | PReqR (k : string) (first last : Z).
 Definition pr_req (r : req) : preq :=
   match r with
   | RGet k => PReq "get_object" (sh k) false | RHead k => PReq "head_object" (sh k) false
   | RPut k => PReq "put_object" (sh k) false | RDelete k => PReq "delete_object" (sh k) false
   | RList p m => PReq "list_objects_v2" (sh p) m
+  | RGetR k a b => PReqR (sh k) a b
   end.
 Definition trace_case (page : nat) (raw_prefix : string) (F : list (string * string)) (ops : list (op key)) :=
   let Fb := map (fun kv => (lit (fst kv), lit (snd kv))) F in
